@@ -47,6 +47,12 @@ HOSTILE_RULES = ["FREQ=DAILY", "FREQ=DAILY;UNTIL=20000101T000000Z", "FREQ=WEEKLY
                  "FREQ=DAILY;UNTIL=20200101T000000Z/PT1H", "FREQ=DAILY;UNTIL=20200101T000000Z/20200102T000000",
                  "FREQ=DAILY;UNTIL=-PT1H;COUNT=+2", "FREQ=DAILY;BYDAY=+1MO,-53SU,0TU", "FREQ=DAILY;WKST=1MO",
                  "FREQ=DAILY;X-UNKNOWN=a\\,b;BYDAY=MO"]
+# whole parameter sections (what stands between the property name and the colon)
+HOSTILE_PARAMS = [";CN=a^nb", ';MEMBER="mailto:a@x.org","mailto:b^n@x.org"', ";X-P=one,two^nlines", ";X=^^,^'", ";X=a^,b",
+                  ";X=^n,^N", ';CN="a\\nb"', ';X=a,b,"c,d"', ";X=", ";=x", ';X="a"b', ";X=a;X=b", ";X=a;x=b,c", ";TZID=",
+                  ";VALUE=", ";ENCODING=BASE64", ";X=\t", ";CN=%0A,x", ';X="', ";X=,", ";X=,,", ';X="",""', ";;", ";X",
+                  ';X=a\x00b,c', ";X=\xef\xbb\xbfa,b", ';DELEGATED-TO="mailto:a@x.org",mailto:b@x.org,"mailto:a@x.org"',
+                  ";X=" + "a," * 400 + "a", ";" + ";".join(f"X{i}=v" for i in range(200)), ';X="^n","^\'"', ";X='a','b'"]
 HOSTILE_COMPONENTS = ["DAYLIGHT", "STANDARD", "VEVENT", "VTIMEZONE", "VALARM", "VCALENDAR", "VFREEBUSY", "X-UNKNOWN", "",
                       "daylight", "VTODO"]
 TOKENS = {
@@ -183,6 +189,8 @@ def draw(rng, doc, kind, other=b""):
                 cands.append((i, "rrule"))
             if u.startswith(b"BEGIN:"):
                 cands.append((i, "component"))
+            if u.startswith((b"ATTENDEE", b"ORGANIZER", b"SUMMARY", b"DTSTART", b"RDATE", b"ATTACH", b"X-")):
+                cands.append((i, "params"))
             if u.startswith((b"DTSTART", b"DTEND", b"DUE", b"RDATE", b"EXDATE", b"RECURRENCE-ID", b"FREEBUSY", b"TRIGGER",
                              b"DTSTAMP", b"CREATED", b"LAST-MODIFIED", b"COMPLETED")):
                 cands.append((i, "date"))
@@ -192,7 +200,7 @@ def draw(rng, doc, kind, other=b""):
         pool = {"tzid-param": HOSTILE_TZIDS, "tzid-prop": HOSTILE_TZIDS, "offset": HOSTILE_OFFSETS,
                 "date": HOSTILE_DATES, "rrule": HOSTILE_RULES, "duration": HOSTILE_DURATIONS,
                 "number": HOSTILE_NUMBERS, "uri": HOSTILE_URIS, "text": HOSTILE_TEXTS,
-                "component": HOSTILE_COMPONENTS}[what]
+                "component": HOSTILE_COMPONENTS, "params": HOSTILE_PARAMS}[what]
         return {"kind": kind, "i": i, "what": what, "value": rng.choice(pool)}
     if kind == "token_subst":
         present = [t for t in sorted(TOKENS) if t in doc]
@@ -292,6 +300,19 @@ def apply(doc, f):
         val = f["value"].encode("utf-8", "surrogatepass")
         eol = b"\r\n" if ln.endswith(b"\r\n") else (b"\n" if ln.endswith(b"\n") else b"")
         body = ln[:len(ln) - len(eol)]
+        if f["what"] == "params":
+            m = re.match(rb"[^;:]*", body)
+            inq, c = False, -1
+            for k2, ch in enumerate(body):
+                if ch == 0x22:
+                    inq = not inq
+                elif ch == 0x3a and not inq:
+                    c = k2
+                    break
+            if c < 0:
+                return doc
+            lines[i] = body[:m.end()] + val + body[c:] + eol
+            return b"".join(lines)
         if f["what"] == "tzid-param":
             m = re.search(rb"(?i)TZID=(\"[^\"]*\"|[^;:]*)", body)
             if not m:
